@@ -478,14 +478,14 @@ func drawData(t *rapid.T, n int, label string) []float64 {
 		var z float64
 		switch shape {
 		case 0: // bell-ish: sum of three uniforms
-			z = rapid.Float64Range(-1, 1).Draw(t, label+".z") + rapid.Float64Range(-1, 1).Draw(t, label+".z") + rapid.Float64Range(-1, 1).Draw(t, label+".z")
+			z = gen.Unit(t, label+".z") + gen.Unit(t, label+".z") + gen.Unit(t, label+".z")
 		case 1: // two-point
 			z = float64(2*rapid.IntRange(0, 1).Draw(t, label+".z") - 1)
 		case 2: // one outlier
 			if i == 0 {
 				z = 20
 			} else {
-				z = rapid.Float64Range(-1, 1).Draw(t, label+".z")
+				z = gen.Unit(t, label+".z")
 			}
 		default: // constant but one
 			if i == n-1 {
@@ -549,14 +549,14 @@ func drawCase(t *rapid.T) *Case {
 
 func TestTTests(t *testing.T) {
 	ev.Rule(rule)
-	ev.Rapid(t, "c04-ttest", 3000, 300000, func(rt *rapid.T) {
+	ev.Rapid(t, "c04-ttest", 20000, 300000, func(rt *rapid.T) {
 		checkTTest.Run(rt, drawCase(rt))
 	})
 }
 
 func TestMeanCI(t *testing.T) {
 	ev.Rule(rule)
-	ev.Rapid(t, "c04-meanci", 1500, 100000, func(rt *rapid.T) {
+	ev.Rapid(t, "c04-meanci", 8000, 100000, func(rt *rapid.T) {
 		n := rapid.IntRange(0, 40).Draw(rt, "n")
 		c := &CICase{Xs: drawData(rt, n, "xs")}
 		switch rapid.IntRange(0, 5).Draw(rt, "cKind") {
